@@ -116,7 +116,18 @@ impl ParsedProgram {
     Ok(())
   }
 
+  /// Decodes the constant table. The per-kind decoders (`ConstElem::from_le`)
+  /// panic on payloads that are too short or inconsistent; a constant blob is
+  /// file content, so such a panic is reported as an error instead of
+  /// unwinding into the caller.
   pub fn decode_const_entries(&self) -> MResult<Vec<Value>> {
+    match std::panic::catch_unwind(std::panic::AssertUnwindSafe(|| self.decode_const_entries_inner())) {
+      Ok(result) => result,
+      Err(_) => Err(MechError::new(ConstantEntryOutOfBoundsError, None).with_compiler_loc()),
+    }
+  }
+
+  fn decode_const_entries_inner(&self) -> MResult<Vec<Value>> {
     let mut out = Vec::with_capacity(self.const_entries.len());
     let blob_len = self.const_blob.len() as u64;
 
@@ -846,7 +857,9 @@ fn decode_instructions(mut cur: Cursor<&[u8]>) -> MResult<Vec<DecodedInstr>> {
         let fxn_id = cur.read_u64::<LittleEndian>()?;
         let dst = cur.read_u32::<LittleEndian>()?;
         let arg_count = cur.read_u32::<LittleEndian>()? as usize;
-        let mut args = Vec::with_capacity(arg_count);
+        // every argument takes four bytes of the stream: do not reserve more than it can hold
+        let remaining = (cur.get_ref().len() as u64).saturating_sub(cur.position()) as usize;
+        let mut args = Vec::with_capacity(arg_count.min(remaining / 4 + 1));
         for _ in 0..arg_count {
           let a = cur.read_u32::<LittleEndian>()?;
           args.push(a);
